@@ -171,6 +171,10 @@ def gen_case(ctx, k, valid):
     nodes = cfggen.assign_tree(rng, base, absent_prob=0.1)
     silent = rng.random() < 0.25
     sc = Scn(seed=ctx.seed * 97 + k, watchdog=120000)
+    if k % 3 == 0:
+        # the process has already run a session with an accepted configuration: what that session left behind (tables, handles, statics) must
+        # not matter to a start that is refused
+        sc.add('bus clear', *cfggen.bus_lines(vcfg, vnodes), 'bus brackets 0', 'mark pre', f'start {dv} {rng.choice([0, 2])}', 'quiesce', 'stop')
     sc.add('bus clear')
     if silent:
         sc.add('bus mode silent')
@@ -208,7 +212,8 @@ def run(ctx):
         if runner.outcome(r) != 'ok':
             continue
         ev = r.events
-        rets = [e for e in ev if e.get('e') == 'ret' and e.get('f') == 'bidib_start_pointer']
+        a0 = next((i for i, e in enumerate(ev) if e.get('e') == 'mark' and e.get('m') == 'att0'), 0)
+        rets = [e for e in ev[a0:] if e.get('e') == 'ret' and e.get('f') == 'bidib_start_pointer']
         if len(rets) != 7:
             ctx.inconclusive.append('attempt count')
             continue
